@@ -23,10 +23,11 @@ class Base43(orm.DeclarativeBase):
     pass
 
 
-class Item(Base43):
-    """criteria columns x, y, s; SET-only columns n, m, u"""
+class _ItemCols:
+    """criteria columns x, y, s; SET-only columns n, m, u; columns that change on every
+    UPDATE without being named in it: ts (server side: trigger + server_onupdate marker),
+    ov (onupdate SQL expression), pv (Python-side scalar onupdate)"""
 
-    __tablename__ = "gm_item"
     id = sa.Column(sa.Integer, primary_key=True)
     x = sa.Column(sa.Integer)
     y = sa.Column(sa.Integer)
@@ -34,29 +35,37 @@ class Item(Base43):
     n = sa.Column(sa.Integer)
     m = sa.Column(sa.Integer)
     u = sa.Column(sa.String(40))
+    ts = sa.Column(sa.Integer, server_default="0", server_onupdate=sa.FetchedValue())
+    ov = sa.Column(sa.Integer, default=0, onupdate=sa.literal_column("ov + 1"))
+    pv = sa.Column(sa.Integer, default=0, onupdate=7)
 
 
-class ItemNR(Base43):
+class Item(_ItemCols, Base43):
+    __tablename__ = "gm_item"
+
+
+class ItemNR(_ItemCols, Base43):
     """same shape, RETURNING disabled -> 'fetch' uses the pre-SELECT path"""
 
     __tablename__ = "gm_item_nr"
     __table_args__ = {"implicit_returning": False}
-    id = sa.Column(sa.Integer, primary_key=True)
-    x = sa.Column(sa.Integer)
-    y = sa.Column(sa.Integer)
-    s = sa.Column(sa.String(40))
-    n = sa.Column(sa.Integer)
-    m = sa.Column(sa.Integer)
-    u = sa.Column(sa.String(40))
 
 
-ITEM_COLS = ("id", "x", "y", "s", "n", "m", "u")
+ITEM_TRIGGERS = [
+    "CREATE TRIGGER %(t)s_ts AFTER UPDATE OF x, y, s, n, m, u ON %(t)s FOR EACH ROW "
+    "BEGIN UPDATE %(t)s SET ts = ts + 1 WHERE id = NEW.id; END" % {"t": t}
+    for t in ("gm_item", "gm_item_nr")
+]
+SERVER_CHANGED_COLS = ("ts", "ov", "pv")     # change on UPDATE without being in the SET clause
+ITEM_COLS = ("id", "x", "y", "s", "n", "m", "u", "ts", "ov", "pv")
 V4 = (None, -7, 0, 2)
 # all-lowercase on purpose: SQLite's LIKE is ASCII case-insensitive, Python's
 # startswith is not; that backend quirk is outside the property (guard).
 S_PALETTE = (
     None, "", "abc", "abxc", "a%c", "a%cd", "a_c", "axc", "a/c", "a/%c", "ab", "a",
     "xa%c", "cab", "%", "_", "abc%", "c", "bc", "a%", "zzé", "a_cd",
+    # line breaks and other control / separator characters inside the part a wildcard covers
+    "a\nc", "ab\ncd", "a\n", "\n", "\nc", "a\r\nc", "a\rc", "a\tc", "a\u2028c", "a\x85c", "a\n%c", "a\n\nbc",
 )
 
 
